@@ -541,6 +541,20 @@ func rich(r *rand.Rand, c RichCfg) *spec.Grammar {
 			g.Rules = append(g.Rules, ru)
 		}
 	}
+	if c.LongRhs {
+		// one rule of 10-12 symbols, mostly terminals so that it is easy to derive, reachable from the start symbol
+		ln := 10 + r.Intn(3)
+		ru := spec.Rule{Lhs: r.Intn(nN), Prec: -1}
+		for j := 0; j < ln; j++ {
+			if r.Intn(6) == 0 {
+				ru.Rhs = append(ru.Rhs, spec.Sym{I: r.Intn(nN)})
+			} else {
+				ru.Rhs = append(ru.Rhs, spec.Sym{T: true, I: r.Intn(nT)})
+			}
+		}
+		g.Rules = append(g.Rules, ru)
+		g.Rules = append(g.Rules, spec.Rule{Lhs: 0, Rhs: []spec.Sym{{I: ru.Lhs}}, Prec: -1})
+	}
 	// an occasional second block of rules for an earlier nonterminal
 	if r.Intn(3) == 0 {
 		g.Rules = append(g.Rules, spec.Rule{Lhs: r.Intn(nN), Rhs: []spec.Sym{{T: true, I: r.Intn(nT)}}, Prec: -1})
@@ -567,11 +581,115 @@ func rich(r *rand.Rand, c RichCfg) *spec.Grammar {
 		ru := &g.Rules[k]
 		ru.Act.C0 = 1 + r.Intn(50)
 		for i, s := range ru.Rhs {
-			if g.SymTag(s) != "" && r.Intn(4) != 0 {
+			if g.SymTag(s) != "" && (r.Intn(4) != 0 || i >= 9) {
 				ru.Act.Refs = append(ru.Act.Refs, i+1)
 				ru.Act.Coef = append(ru.Act.Coef, 1+r.Intn(9))
 			}
 		}
 	}
+	return g
+}
+
+// Contexts produces grammars of the shape found in statement-level syntax:
+// a few contexts (keyword, body, terminator) sharing body nonterminals, bodies
+// made of separator lists and optional tails with 0-4 alternatives. Such
+// grammars have several nonterminal transitions on one symbol, follow sets
+// that differ per context, and direct-read sets of every small size.
+func Contexts(r *rand.Rand) *spec.Grammar {
+	g := &spec.Grammar{}
+	tok := func(name string) int {
+		g.Tokens = append(g.Tokens, spec.Token{Name: name, Decl: "token", Tag: "s"})
+		return len(g.Tokens) - 1
+	}
+	nt := func(name string) int {
+		g.NTs = append(g.NTs, spec.NT{Name: name, Tag: "s"})
+		return len(g.NTs) - 1
+	}
+	T := func(i int) spec.Sym { return spec.Sym{T: true, I: i} }
+	N := func(i int) spec.Sym { return spec.Sym{I: i} }
+	S := nt("S")
+	nBodies := 1 + r.Intn(3)
+	var bodies []int
+	atomTok := tok("Tn")
+	atom := nt("Atom")
+	g.Rules = append(g.Rules, spec.Rule{Lhs: atom, Rhs: []spec.Sym{T(atomTok)}, Prec: -1})
+	if r.Intn(2) == 0 {
+		id := tok("Ti")
+		g.Rules = append(g.Rules, spec.Rule{Lhs: atom, Rhs: []spec.Sym{T(id)}, Prec: -1})
+	}
+	for b := 0; b < nBodies; b++ {
+		body := nt(fmt.Sprintf("Body%d", b))
+		bodies = append(bodies, body)
+		// head: atom or separator list of atoms
+		head := atom
+		if r.Intn(2) == 0 {
+			lst := nt(fmt.Sprintf("List%d", b))
+			sep := tok(fmt.Sprintf("Tsep%d", b))
+			if r.Intn(2) == 0 {
+				g.Rules = append(g.Rules, spec.Rule{Lhs: lst, Rhs: []spec.Sym{N(lst), T(sep), N(atom)}, Prec: -1})
+			} else {
+				g.Rules = append(g.Rules, spec.Rule{Lhs: lst, Rhs: []spec.Sym{N(atom), T(sep), N(lst)}, Prec: -1})
+			}
+			g.Rules = append(g.Rules, spec.Rule{Lhs: lst, Rhs: []spec.Sym{N(atom)}, Prec: -1})
+			head = lst
+		}
+		rhs := []spec.Sym{N(head)}
+		// optional tail with k terminal alternatives (+ epsilon)
+		if r.Intn(3) != 0 {
+			tail := nt(fmt.Sprintf("Tail%d", b))
+			k := r.Intn(5)
+			if r.Intn(4) != 0 || k == 0 {
+				g.Rules = append(g.Rules, spec.Rule{Lhs: tail, Prec: -1})
+			}
+			for j := 0; j < k; j++ {
+				tt := tok(fmt.Sprintf("Tt%d_%d", b, j))
+				alt := []spec.Sym{T(tt)}
+				if r.Intn(4) == 0 {
+					alt = append(alt, N(atom))
+				}
+				g.Rules = append(g.Rules, spec.Rule{Lhs: tail, Rhs: alt, Prec: -1})
+			}
+			rhs = append(rhs, N(tail))
+		}
+		g.Rules = append(g.Rules, spec.Rule{Lhs: body, Rhs: rhs, Prec: -1})
+	}
+	nCtx := 2 + r.Intn(3)
+	var ends []int
+	for e := 0; e < 1+r.Intn(3); e++ {
+		ends = append(ends, tok(fmt.Sprintf("Tend%d", e)))
+	}
+	stmt := S
+	if r.Intn(2) == 0 {
+		// a statement level below the start symbol with several terminators
+		stmt = nt("Stmt")
+		for _, e := range ends {
+			g.Rules = append(g.Rules, spec.Rule{Lhs: S, Rhs: []spec.Sym{N(stmt), T(e)}, Prec: -1})
+		}
+		if r.Intn(2) == 0 {
+			g.Rules = append(g.Rules, spec.Rule{Lhs: S, Rhs: []spec.Sym{N(S), N(stmt), T(ends[0])}, Prec: -1})
+		}
+	}
+	for c := 0; c < nCtx; c++ {
+		kw := tok(fmt.Sprintf("Tkw%d", c))
+		rhs := []spec.Sym{T(kw), N(bodies[r.Intn(len(bodies))])}
+		if stmt == S || r.Intn(2) == 0 {
+			rhs = append(rhs, T(ends[r.Intn(len(ends))]))
+		}
+		g.Rules = append(g.Rules, spec.Rule{Lhs: stmt, Rhs: rhs, Prec: -1})
+	}
+	g.Start = S
+	// rules were appended in construction order; move the start symbol's rules first sometimes
+	if r.Intn(2) == 0 {
+		var a, b []spec.Rule
+		for _, ru := range g.Rules {
+			if ru.Lhs == S || ru.Lhs == stmt {
+				a = append(a, ru)
+			} else {
+				b = append(b, ru)
+			}
+		}
+		g.Rules = append(a, b...)
+	}
+	g.DefaultActs()
 	return g
 }
